@@ -1000,3 +1000,128 @@ func OrdPoolReset(p *load.Program) *report.RuleResult {
 	}
 	return r
 }
+
+// ---------------------------------------------------------------------------
+// TAB-SKIPARMS
+
+// TabSkipArms implements TAB-SKIPARMS: the container skipper knows every
+// delimited form the value skippers know.
+func TabSkipArms(p *load.Program) *report.RuleResult {
+	r := newResult("TAB-SKIPARMS", "the character-level container skipper (skipContainerHelper) uses every delimited-form skipper that the token-level skippers dispatched by skipValue use (short string, long string, quoted symbol, lob): a form it does not know is scanned as bare characters, where comment starts and brackets mean something else ('//' inside the base64 text of a blob swallows the rest of the line), so what follows a skipped container differs from what follows a traversed one", 3)
+	sv := methodByName(p, "tokenizer", "skipValue")
+	sc := methodByName(p, "tokenizer", "skipContainerHelper")
+	if sv == nil || sc == nil {
+		missing(r, "tokenizer.skipValue / tokenizer.skipContainerHelper", "not found")
+		return r
+	}
+	tokCallees := func(f *ssa.Function) []*ssa.Function {
+		var out []*ssa.Function
+		seen := map[*ssa.Function]bool{}
+		for _, b := range f.Blocks {
+			for _, in := range b.Instrs {
+				if c, ok := in.(ssa.CallInstruction); ok {
+					if g := c.Common().StaticCallee(); g != nil && recvTypeName(g) == "tokenizer" && !seen[g] {
+						seen[g] = true
+						out = append(out, g)
+					}
+				}
+			}
+		}
+		return out
+	}
+	calls := func(f, g *ssa.Function) bool {
+		for _, h := range tokCallees(f) {
+			if h == g {
+				return true
+			}
+		}
+		return false
+	}
+	have := map[*ssa.Function]bool{}
+	for _, h := range tokCallees(sc) {
+		have[h] = true
+	}
+	n := 0
+	for _, top := range tokCallees(sv) {
+		for _, h := range tokCallees(top) {
+			if !strings.HasSuffix(h.Name(), "Helper") || h == sc || calls(h, sc) || strings.Contains(strings.ToLower(h.Name()), "whitespace") {
+				continue
+			}
+			n++
+			what := sprintf("form skipped by %s (used by %s)", h.Name(), top.Name())
+			if have[h] {
+				r.OK(p.FuncName(sc), p.Pos(sc.Pos()), what, "the container skipper uses the same skipper")
+			} else {
+				r.Bad(p.FuncName(sc), p.Pos(sc.Pos()), what, "the container skipper does not use it: inside a skipped container this form is scanned as bare characters")
+			}
+		}
+	}
+	if n == 0 {
+		missing(r, "delimited-form helpers of the value skippers", "none found (skip*Helper methods called by the skippers that skipValue dispatches to)")
+	}
+	return r
+}
+
+// ---------------------------------------------------------------------------
+// ORD-IMPADJUST
+
+// OrdImpAdjust implements ORD-IMPADJUST: an import leaves readImport sized as declared.
+func OrdImpAdjust(p *load.Program) *report.RuleResult {
+	r := newResult("ORD-IMPADJUST", "every shared table that readImport returns without an error is nil (no import), a placeholder built for the declared max_id, or the result of Adjust(declared max_id): a table taken from the catalog is never returned as found, because the import occupies exactly the declared number of IDs whatever the catalog's copy defines, and every later import and local symbol is numbered after it", 2)
+	fn := p.Func(nil, "readImport")
+	if fn == nil {
+		missing(r, "readImport", "function not found")
+		return r
+	}
+	ei := errResultIndex(fn)
+	seen := map[ssa.Value]bool{}
+	var classify func(v ssa.Value, at string, depth int)
+	classify = func(v ssa.Value, at string, depth int) {
+		if seen[v] {
+			return
+		}
+		seen[v] = true
+		what := "import returned by readImport"
+		switch x := v.(type) {
+		case *ssa.Const:
+			r.OK(p.FuncName(fn), at, what, "nil")
+		case *ssa.Phi:
+			for i, e := range x.Edges {
+				classify(e, p.Pos(lastPos(x.Block().Preds[i])), depth)
+			}
+		case *ssa.MakeInterface:
+			r.OK(p.FuncName(fn), at, what, "a placeholder of type "+ssau.TypeName(x.X.Type())+" built here")
+		case *ssa.Extract:
+			classify(x.Tuple, at, depth)
+		case *ssa.Call:
+			switch {
+			case x.Call.IsInvoke() && x.Call.Method.Name() == "Adjust":
+				r.OK(p.FuncName(fn), at, what, "result of Adjust")
+			case x.Call.StaticCallee() != nil && p.InModule(x.Call.StaticCallee()) && depth > 0 && len(x.Call.StaticCallee().Blocks) > 0:
+				g := x.Call.StaticCallee()
+				gi := errResultIndex(g)
+				for _, ret := range returns(g) {
+					if gi >= 0 && definitelyNonNilError(p, ret.Results[gi], 0) {
+						continue
+					}
+					for i, rv := range ret.Results {
+						if i != gi && types.Identical(rv.Type(), fn.Signature.Results().At(0).Type()) {
+							classify(rv, instrPos(p, ret), depth-1)
+						}
+					}
+				}
+			default:
+				r.Bad(p.FuncName(fn), at, what, "the table comes from "+describeOperand(x)+" and is returned as found: when the declared max_id differs from what that table defines, the import occupies the wrong number of IDs and everything after it is misnumbered")
+			}
+		default:
+			r.Bad(p.FuncName(fn), at, what, "the table comes from "+describeOperand(v)+" and is returned as found: when the declared max_id differs from what that table defines, the import occupies the wrong number of IDs and everything after it is misnumbered")
+		}
+	}
+	for _, ret := range returns(fn) {
+		if ei >= 0 && definitelyNonNilError(p, ret.Results[ei], 0) {
+			continue
+		}
+		classify(ret.Results[0], instrPos(p, ret), 2)
+	}
+	return r
+}
